@@ -1,2 +1,80 @@
-(** C08 — token positions are exact and lexemes tile the input. (theorems follow) *)
-From Gocc Require Import Lex.Scan.
+(** C08 — token positions are exact and lexemes tile the input.
+    Only property theorems (closed by [exact]) and non-vacuity examples. *)
+From Coq Require Import List ZArith Lia.
+From Gocc Require Import Base.Utf8 Lex.Scan Lex.ScanProofs.
+Import ListNotations.
+Open Scope Z_scope.
+
+(** For every DFA [d], every byte string [src] and every number [k] of Scan calls on a fresh
+    lexer (every prefix of the token stream), with Go's UTF-8 decoding:
+    - the calls return (no fuel exhaustion);
+    - every token [t] — INVALID and end-of-input included — is positioned exactly
+      ([TokPos]): there is a prefix [pre] of [src], ending at a character boundary and
+      holding the characters [rs], with  src = pre ++ lit t ++ post,  offset = |pre|,
+      line = 1 + number of newlines in [rs],  column = 1 + advance since the last CR/LF
+      in [rs] (4 per tab, 1 per other character);
+    - the lexemes tile the input: src = skipped1 ++ lit1 ++ skipped2 ++ lit2 ++ ... ++ rest,
+      each literal starting exactly where the previous lexeme plus the ignored text ended
+      ([tiles]), [rest] being the part not yet read after [k] calls. *)
+Theorem C08_positions_and_tiling : forall (d : dfa) (src : list Z) (k : nat),
+  exists ts l',
+    scan_n decode_rune d k (init src) = Some (ts, l') /\
+    Forall (TokPos decode_rune src) ts /\
+    src = pieces ts ++ rest l' /\
+    tiles 0 ts.
+Proof.
+  intros d src k.
+  destruct (scan_n decode_rune d k (init src)) as [[ts l']|] eqn:E;
+    [|exfalso; exact (scan_n_total decode_rune d decode_rune_progress k (init src) E)].
+  exists ts, l'.
+  destruct (scan_n_spec decode_rune d decode_rune_progress src k (init src) ts l'
+              (Good_init decode_rune src) E) as (_ & HF & HR & HT & _).
+  exact (conj eq_refl (conj HF (conj HR HT))).
+Qed.
+Print Assumptions C08_positions_and_tiling.
+
+(** The same for every decoder that makes progress (nothing else about UTF-8 is used), from
+    every consistent lexer state, i.e. for every history of earlier calls. *)
+Theorem C08_any_decoder_any_state : forall decode d,
+  (forall bs r sz, bs <> [] -> decode bs = (r, sz) -> (1 <= sz <= length bs)%nat) ->
+  forall src k l ts l',
+  Good decode src l -> scan_n decode d k l = Some (ts, l') ->
+  Good decode src l' /\ Forall (TokPos decode src) ts /\ rest l = pieces ts ++ rest l' /\ tiles (off l) ts /\
+  off l' = off l + Z.of_nat (length (pieces ts)).
+Proof. exact scan_n_spec. Qed.
+Print Assumptions C08_any_decoder_any_state.
+
+(** The end-of-input token: returned exactly when the input is exhausted, with empty literal,
+    at offset |src| (so the lexemes before it cover the input to the last byte) — provided no
+    DFA state accepts with the reserved type 1 (re-checked on the emitted tables on every run). *)
+Theorem C08_eof_token : forall d, (forall s, accept d s <> EOF) ->
+  forall l t l', scan decode_rune d l = Some (t, l') -> ty t = EOF -> rest l' = [] /\ lit t = [].
+Proof. intros d H l t l'. exact (scan_eof_only_at_end decode_rune d l t l' H). Qed.
+Print Assumptions C08_eof_token.
+
+Theorem C08_eof_sticky : forall d l, rest l = [] ->
+  scan decode_rune d l =
+  Some ({| ty := EOF; lit := []; toff := off l; tline := line l; tcol := col l; skipped := [] |}, l).
+Proof. exact (scan_eof_sticky decode_rune). Qed.
+Print Assumptions C08_eof_sticky.
+
+(** The implementation's incremental line/column bookkeeping equals the definitional functions. *)
+Theorem C08_line_col_definitional : forall rs r,
+  line_of (rs ++ [r]) = adv_line r (line_of rs) /\ col_of (rs ++ [r]) = adv_col r (col_of rs).
+Proof. intros rs r. exact (conj (line_of_snoc rs r) (col_of_snoc rs r)). Qed.
+Print Assumptions C08_line_col_definitional.
+
+(** Non-vacuity: tokens a:'x' (2), !ig:'x' 'y' (ignored), id:'a'-'w'{'a'-'w'} (3); the input
+    "xy?\n\txab" exercises ignore, INVALID (owning the killing rune), newline, tab. *)
+Definition ex_dfa : dfa := table_dfa
+  [ {| cases := [(97, 119, 2); (120, 120, 1)]; dflt := -1 |};
+    {| cases := [(121, 121, 3)]; dflt := -1 |};
+    {| cases := [(97, 119, 2)]; dflt := -1 |};
+    {| cases := []; dflt := -1 |} ]
+  [0; 2; 3; -1].
+Example C08_example :
+  option_map (fun p => map (fun t => (ty t, lit t, toff t, tline t, tcol t)) (fst p))
+             (scan_n decode_rune ex_dfa 7 (init [120; 121; 63; 10; 9; 120; 97; 98]))
+  = Some [(0, [63], 2, 1, 3); (0, [10], 3, 1, 4); (0, [9], 4, 2, 1); (2, [120], 5, 2, 5);
+          (3, [97; 98], 6, 2, 6); (1, [], 8, 2, 8); (1, [], 8, 2, 8)].
+Proof. vm_compute. reflexivity. Qed.
